@@ -87,6 +87,7 @@ type JobResult struct {
 	TableDecisions int             `json:"table_decisions"`
 	BranchSites  map[string]int    `json:"branch_sites,omitempty"`
 	Summaries    int               `json:"summaries"`
+	SummaryHits  int               `json:"summary_hits"`
 	SummaryPaths int               `json:"summary_paths"`
 	ImpureFalls  map[string]int    `json:"impure_fallbacks,omitempty"`
 	GlobalWrites map[string]int    `json:"global_writes,omitempty"`
@@ -178,6 +179,13 @@ func (r *Run) setModel(m Model) {
 }
 
 func (r *Run) check(extra *Term, positive bool, wantModel bool) (Result, Model) {
+	if debugDefs {
+		fn := ""
+		if len(r.frames) > 0 {
+			fn = r.frames[len(r.frames)-1].fn.Name()
+		}
+		r.eng.solver.where = r.eng.posString(r.curPos()) + " " + fn
+	}
 	lits := make([]Lit, len(r.pc), len(r.pc)+1)
 	copy(lits, r.pc)
 	if extra != nil {
@@ -524,13 +532,16 @@ func (r *Run) condSince(base int) *Term {
 // summarise runs fn(args) over all its feasible paths under the current path
 // condition and merges the scalar results. ok=false means the callee wrote to
 // pre-existing state (or returned a non-scalar) and must be called normally.
-func (r *Run) summarise(call func() Value, name string) (Value, bool) {
+func (r *Run) summarise(call func() Value, name string, args []Value, env []Value) (Value, bool) {
 	tt := r.eng.tt
 	key := ""
-	if r.inSum == 0 {
-		r.sumCount++
-		key = fmt.Sprintf("%s|%d|%d", r.decisionString(), r.sumCount, len(r.pc))
+	if fp, vars := r.fingerprint(name, args, env); fp != "" {
+		key = fp + "#" + r.relevantPC(vars)
 		if sm, ok := r.eng.sumMemo[key]; ok {
+			r.res.SummaryHits++
+			if sm == nil {
+				return nil, false // known impure / unmergeable
+			}
 			return r.applySummary(sm, name), true
 		}
 	}
@@ -622,6 +633,9 @@ func (r *Run) summarise(call func() Value, name string) (Value, bool) {
 	r.barrier = savedBarrier
 	restore()
 	if impure {
+		if key != "" {
+			r.eng.sumMemo[key] = nil
+		}
 		return nil, false
 	}
 	r.res.Summaries++
@@ -656,7 +670,7 @@ func (r *Run) summarise(call func() Value, name string) (Value, bool) {
 		}
 		sm.val = merged
 	}
-	if r.inSum == 0 {
+	if key != "" {
 		r.eng.sumMemo[key] = sm
 	}
 	return r.applySummary(sm, name), true
